@@ -48,24 +48,27 @@ def gap (eps v : α) : Option α → α
   | none => eps
   | some w => absG (v - w)
 
-/-- one iteration of the loop over the sorted pooled array -/
-def scanStep (eps : α) (ncol j : Nat) (prev next : Option α) (v : α) (idx : Nat) (st : Scan α) : Scan α :=
-  let diff := gap eps v prev
-  let diffnext := gap eps v next
-  let first := decide (idx < ncol)
+/-- one iteration of the loop over the sorted pooled array, on the outcomes of its four tests:
+`first` = `index<ncol`, `ge` = `diff>=eps`, `lt` = `diff<eps`, `geNext` = `diffnext>=eps` -/
+def scanStepB (first ge lt geNext : Bool) (j : Nat) (st : Scan α) : Scan α :=
   -- start a tie sequence
-  let st1 := if first && decide (eps ≤ diff) then { st with start := some j, stop := j, nties := 1 } else st
+  let st1 := if first && ge then { st with start := some j, stop := j, nties := 1 } else st
   -- continue it
-  let st2 := if st1.start.isSome && decide (diff < eps) then
+  let st2 := if st1.start.isSome && lt then
       { st1 with stop := st1.stop + 1, nties := if first then st1.nties + 1 else st1.nties }
     else st1
   -- end it
   match st2.start with
   | some s =>
-    if eps ≤ diffnext then
+    if geNext then
       { st2 with sumrank := st2.sumrank + (1 + ((s + st2.stop : Nat) : α) / 2) * (st2.nties : α), start := none }
     else st2
   | none => st2
+
+def scanStep (eps : α) (ncol j : Nat) (prev next : Option α) (v : α) (idx : Nat) (st : Scan α) : Scan α :=
+  let diff := gap eps v prev
+  let diffnext := gap eps v next
+  scanStepB (decide (idx < ncol)) (decide (eps ≤ diff)) (decide (diff < eps)) (decide (eps ≤ diffnext)) j st
 
 def scanAux (eps : α) (ncol : Nat) : Nat → Option α → Scan α → List (α × Nat) → Scan α
   | _, _, st, [] => st
